@@ -60,6 +60,11 @@ def freeT (m : Mem) (t : Triple) : Mem :=
     if m.liveLibc = 0 then { m with fault := true }
     else { m with libc := m.libc + 1, lfree := m.lfree + 1, liveLibc := m.liveLibc - 1 }
 
+/-- number of live blocks obtained through triple `t` (shared definition; do not redefine it) -/
+def liveT (m : Mem) : Triple → Nat
+  | .conf => m.live
+  | .libc => m.liveLibc
+
 @[simp] theorem allocT_conf (m : Mem) : m.allocT .conf = m.alloc := rfl
 @[simp] theorem freeT_conf (m : Mem) : m.freeT .conf = m.free := rfl
 
